@@ -419,6 +419,11 @@ class Check(core.PropertyCheck):
         "replacement files of modify rules keep their content (they are only deleted / restored); what a matching rule "
         "with an unreadable file does is not judged",
         "the projection ignores Host, Content-Length, Content-Type and Server headers",
+        "map_local directories hold special-character names only in their escaped form (we_rd, beta_k=v), never both "
+        "forms; capturing groups are a trailing (.*) / (.+); file contents identify files (a served body is mapped back "
+        "to tokens)",
+        "findings F1-F3 (findings_proposed/X03.md) are reported as violations until their entries are in "
+        "known_findings.json; self-tests register them with VERIF_KF",
     )
 
     # ---- model runs -------------------------------------------------------------------------------------------
